@@ -176,7 +176,9 @@ func genHTTPCase(r *rand.Rand) HTTPCase {
 		hc.Body = `{"query":"{ me { firstName } }"}`
 	case k < 14: // POST json
 		hc.Method = "POST"
-		hc.ContentType = []string{"application/json", "application/json; charset=utf-8", "text/plain", "", "application/xml", "application/graphql", ";"}[r.Intn(7)]
+		hc.ContentType = []string{"application/json", "application/json; charset=utf-8", "text/plain", "", "application/xml", "application/graphql", ";",
+			// request text that is echoed into the error message, looking like the messages the handler rewrites
+			"application/graphql into Go json: v1", "json: into Go type", "text/plain; x=\"json: cannot unmarshal into Go value\"", "%s%d%!", "a\"b\\c"}[r.Intn(12)]
 		var body interface{}
 		switch r.Intn(6) {
 		case 0, 1, 2:
